@@ -861,6 +861,32 @@ type ColStep struct {
 	Err string    `json:"err,omitempty"`
 	// Same > 0: the config object given in step Same-1 is given once more (Cfg unused)
 	Same int `json:"same,omitempty"`
+	// Touch > 0: no Add call; the owner of the config object of step Touch-1
+	// changes its own config (sets the top-level name "zz"). The collector's
+	// config must not follow, and a later Same step hands in the changed object.
+	Touch int `json:"touch,omitempty"`
+}
+
+// colSource is a config object that is handed to the collector, with the data
+// it was made of: the tree and, if its owner changed it later, the value of
+// the name "zz". fp is the stored structure the object must keep while only the
+// collector works with it.
+type colSource struct {
+	cfg  *ucfg.Config
+	tree *gen.Tree
+	zz   string
+	fp   string
+	adds int
+}
+
+// fresh builds the data of the source anew (the oracle never merges an object
+// the collector has seen).
+func (s *colSource) fresh(opts []ucfg.Option) (*ucfg.Config, error) {
+	c, err := ucfg.NewFrom(s.tree.Go(), opts...)
+	if err == nil && s.zz != "" {
+		err = c.SetString("zz", -1, s.zz, opts...)
+	}
+	return c, err
 }
 
 // ColCase is a history of Add calls on one collector.
@@ -874,6 +900,7 @@ func runCollector(c ColCase, r *runlog.R) error {
 	opts := c.Opts.build()
 	var initCol, acc *ucfg.Config
 	var srcs []*ucfg.Config
+	var owners []*colSource // per step: the source object of srcs[i] (nil: none)
 	if err := uc.Safe("NewFrom", func() (err error) {
 		if initCol, err = newInit(c.Init, opts); err != nil {
 			return err
@@ -883,17 +910,24 @@ func runCollector(c ColCase, r *runlog.R) error {
 		}
 		for i, s := range c.Steps {
 			var cfg *ucfg.Config
+			var own *colSource
 			switch {
+			case s.Touch > 0 && s.Touch <= i:
+				// no config of its own
+			case s.Touch != 0:
+				return errors.New("malformed case")
 			case s.Same > 0 && s.Same <= i:
-				cfg = srcs[s.Same-1]
+				cfg, own = srcs[s.Same-1], owners[s.Same-1]
 			case s.Same != 0:
 				return errors.New("malformed case")
 			case s.Cfg != nil:
 				if cfg, err = ucfg.NewFrom(s.Cfg.Go(), opts...); err != nil {
 					return err
 				}
+				own = &colSource{cfg: cfg, tree: s.Cfg, fp: stored(cfg)}
 			}
 			srcs = append(srcs, cfg)
+			owners = append(owners, own)
 		}
 		return nil
 	}); err != nil {
@@ -921,7 +955,39 @@ func runCollector(c ColCase, r *runlog.R) error {
 	failedAt := -1
 	merges := 0
 	var fz *frozen
+	// handedIn: every config object given to Add so far must still hold its own data
+	handedIn := func(i int) error {
+		for j := 0; j <= i; j++ {
+			if o := owners[j]; o != nil && o.adds > 0 {
+				if now := stored(o.cfg); now != o.fp {
+					return fmt.Errorf("step %d: the collector changed a configuration that was handed to Add (the config object of step %d): collecting must copy the settings, the configs handed in are inputs only\n stored when handed in:\n%s stored now:\n%s", i, j, clip(o.fp), clip(now))
+				}
+			}
+		}
+		return nil
+	}
 	for i, s := range c.Steps {
+		if s.Touch > 0 {
+			o := owners[s.Touch-1]
+			if o == nil {
+				continue
+			}
+			storedBefore := stored(col.Config())
+			o.zz = fmt.Sprintf("touched-%d", i)
+			if err := uc.Safe("owner's SetString", func() error { return o.cfg.SetString("zz", -1, o.zz, opts...) }); err != nil {
+				r.Discard()
+				return nil
+			}
+			o.fp = stored(o.cfg)
+			if now := stored(col.Config()); now != storedBefore {
+				return fmt.Errorf("step %d: the owner of the config object of step %d set zz=%q in its own config, and the collector's config changed with it: collected settings must be copies\n stored before:\n%s stored after:\n%s", i, s.Touch-1, o.zz, clip(storedBefore), clip(now))
+			}
+			if err := handedIn(i); err != nil {
+				return err
+			}
+			r.ClassIf(o.adds > 0, "owner:changes its config after it was added (collector must not follow)")
+			continue
+		}
 		var stepErr error
 		if s.Err != "" {
 			stepErr = errors.New(s.Err)
@@ -932,7 +998,15 @@ func runCollector(c ColCase, r *runlog.R) error {
 			if s.Same > 0 {
 				before = viewOf(acc, opts)
 			}
-			if err := uc.Safe("oracle merge", func() error { mergeErr = acc.Merge(srcs[i], opts...); return nil }); err != nil {
+			// the fold re-merges the ORIGINAL data of the object (built anew), never the object the collector has seen
+			if err := uc.Safe("oracle merge", func() error {
+				twin, err := owners[i].fresh(opts)
+				if err != nil {
+					return err
+				}
+				mergeErr = acc.Merge(twin, opts...)
+				return nil
+			}); err != nil {
 				r.Discard()
 				return nil
 			}
@@ -942,6 +1016,12 @@ func runCollector(c ColCase, r *runlog.R) error {
 		var ret error
 		if err := uc.Safe("Add", func() error { ret = col.Add(srcs[i], stepErr); return nil }); err != nil {
 			return fmt.Errorf("step %d: %v", i, err)
+		}
+		if owners[i] != nil {
+			owners[i].adds++
+		}
+		if err := handedIn(i); err != nil {
+			return err
 		}
 		if srcs[i] == nil {
 			// nothing to merge, with or without an error
@@ -1012,6 +1092,8 @@ func runCollector(c ColCase, r *runlog.R) error {
 		if s.Same > 0 && stepErr == nil && srcs[i] != nil {
 			r.Class("again:config object added again")
 			r.ClassIf(!sameView(before, want), "again:merging it again changes the data")
+			r.ClassIf(owners[i].zz != "", "again:config object added again after its owner changed it")
+			r.ClassIf(c.Init == nil || (c.Init.K == "obj" && len(c.Init.Keys) == 0), "again:on a collector that started empty")
 		}
 	}
 	if err := sameOptions("GetOptions() after the history", col.GetOptions(), opts); err != nil {
@@ -1080,6 +1162,19 @@ type FilesCase struct {
 	// arguments are parsed as -c path -c path ...
 	Via   string `json:"via,omitempty"`
 	Named bool   `json:"named,omitempty"`
+	// Keep: the loaders in the table hand out configs they KEEP: the first
+	// config loaded for a path (as spelled) is returned again, the same object,
+	// whenever that path is given again (a prepared/cached configuration per
+	// file). Such a loader does not see a rewritten file.
+	Keep bool `json:"keep,omitempty"`
+}
+
+// handedCfg is a config object a loader handed to the flag, with its stored
+// structure at that time: the flag must leave it as it is.
+type handedCfg struct {
+	cfg  *ucfg.Config
+	path string
+	fp   string
 }
 
 // target is the index of the argument that introduced the file argument i names.
@@ -1195,6 +1290,13 @@ func runFiles(c FilesCase, r *runlog.R) error {
 
 	// the extension table under test: recording wrappers around the real loaders
 	var calls []loaderCall
+	var handed []*handedCfg
+	type keptLoad struct {
+		cfg *ucfg.Config
+		err error
+	}
+	kept := map[string]keptLoad{}
+	keptAgain := 0
 	table := map[string]flag.FileLoader{}
 	expect := map[string]int{}
 	for i, e := range c.Exts {
@@ -1202,12 +1304,59 @@ func runFiles(c FilesCase, r *runlog.R) error {
 		real := realLoader(e.Loader)
 		table[e.Ext] = func(name string, o ...ucfg.Option) (*ucfg.Config, error) {
 			calls = append(calls, loaderCall{entry: i, path: name, nopts: len(o), behav: behaviour(o)})
-			return real(name, o...)
+			key := fmt.Sprintf("%d|%s", i, name)
+			if k, ok := kept[key]; ok && c.Keep {
+				if k.cfg != nil {
+					keptAgain++
+				}
+				return k.cfg, k.err
+			}
+			cfg, err := real(name, o...)
+			if cfg != nil {
+				handed = append(handed, &handedCfg{cfg: cfg, path: name, fp: stored(cfg)})
+			}
+			kept[key] = keptLoad{cfg, err}
+			return cfg, err
 		}
 		expect[e.Ext] = i // a later entry for the same extension replaces the earlier one, as in the map
 	}
+	// the configs the loaders handed to the flag are inputs only
+	checkHanded := func(when string) error {
+		for _, h := range handed {
+			if now := stored(h.cfg); now != h.fp {
+				return fmt.Errorf("%s: the flag changed a configuration its loader had handed in (the config loaded for %q): collecting must copy the settings\n stored when handed in:\n%s stored now:\n%s", when, h.path, clip(h.fp), clip(now))
+			}
+		}
+		return nil
+	}
+	// the oracle of a keeping loader: the data a path had when it was first
+	// loaded (the fold re-merges the ORIGINAL data of a repeated file, read anew
+	// from a private copy of the text, never the object the flag has seen)
+	firstText := map[string][]byte{}
+	oracleLoad := func(entry int, path string) (*ucfg.Config, error) {
+		if !c.Keep {
+			return realLoader(c.Exts[entry].Loader)(path, opts...)
+		}
+		key := fmt.Sprintf("%d|%s", entry, path)
+		text, ok := firstText[key]
+		if !ok {
+			b, err := os.ReadFile(path)
+			if err != nil {
+				return realLoader(c.Exts[entry].Loader)(path, opts...) // fails the same way
+			}
+			firstText[key], text = b, b
+		}
+		private := filepath.Join(dir, "oracle-private-copy")
+		if err := os.WriteFile(private, text, 0o644); err != nil {
+			return nil, fmt.Errorf("harness: %v", err)
+		}
+		return realLoader(c.Exts[entry].Loader)(private, opts...)
+	}
 	if c.Via == "flagset" {
-		return runFilesFlagSet(c, r, dir, opts, initFlag, acc, table, expect, &calls)
+		err := runFilesFlagSet(c, r, dir, opts, initFlag, acc, table, expect, &calls, checkHanded)
+		r.ClassIf(c.Keep, "keep:loaders hand out configs they keep")
+		r.ClassIf(keptAgain > 0, "keep:a kept config object is handed in again")
+		return err
 	}
 	var fv *flag.FlagValue
 	if err := uc.Safe("NewFlagFiles", func() error { fv = flag.NewFlagFiles(initFlag, table, opts...); return nil }); err != nil {
@@ -1254,6 +1403,9 @@ func runFiles(c FilesCase, r *runlog.R) error {
 			if err := fz.check(fmt.Sprintf("file %d %q", i, f.Name), fv.Config(), opts); err != nil {
 				return err
 			}
+			if err := checkHanded(fmt.Sprintf("file %d %q (after the failure)", i, f.Name)); err != nil {
+				return err
+			}
 			// does the file load on its own? (only for the evidence)
 			e, ok := expect[filepath.Ext(path)]
 			if !ok {
@@ -1288,7 +1440,7 @@ func runFiles(c FilesCase, r *runlog.R) error {
 		loadFails := false
 		if ok {
 			if err := uc.Safe("oracle", func() error {
-				want, wantErr = realLoader(c.Exts[entry].Loader)(path, opts...)
+				want, wantErr = oracleLoad(entry, path)
 				loadFails = wantErr != nil
 				if wantErr == nil && want != nil {
 					wantErr = acc.Merge(want, opts...)
@@ -1311,6 +1463,9 @@ func runFiles(c FilesCase, r *runlog.R) error {
 		}
 		if fv.Config() != handle {
 			return fmt.Errorf("file %d %q: Config() returns a different object than before the call", i, f.Name)
+		}
+		if err := checkHanded(fmt.Sprintf("file %d %q", i, f.Name)); err != nil {
+			return err
 		}
 		// a file that cannot be loaded merges nothing
 		unchanged := func(why string) error {
@@ -1430,6 +1585,9 @@ func runFiles(c FilesCase, r *runlog.R) error {
 	}
 	c.Opts.classes(r)
 	r.Class("via=set")
+	r.ClassIf(c.Keep, "keep:loaders hand out configs they keep")
+	r.ClassIf(keptAgain > 0, "keep:a kept config object is handed in again")
+	r.ClassIf(keptAgain > 0 && (c.Init == nil || (c.Init.K == "obj" && len(c.Init.Keys) == 0)), "keep:a kept config object is handed in again to a flag that started empty")
 	for _, l := range classes {
 		r.Class(l)
 	}
@@ -1465,7 +1623,7 @@ func builtinTable(exts []ExtEntry) string {
 // standard library FlagSet. The fold is computed first (Rewrite is not
 // applicable here and ignored), then the command line is parsed once.
 func runFilesFlagSet(c FilesCase, r *runlog.R, dir string, opts []ucfg.Option, initFlag, acc *ucfg.Config,
-	table map[string]flag.FileLoader, expect map[string]int, calls *[]loaderCall) error {
+	table map[string]flag.FileLoader, expect map[string]int, calls *[]loaderCall, checkHanded func(string) error) error {
 	wantBehav := behaviour(opts)
 	failedAt := -1
 	var failErr error // nil: no loader for the file
@@ -1549,6 +1707,9 @@ func runFilesFlagSet(c FilesCase, r *runlog.R, dir string, opts []ucfg.Option, i
 	}
 	if fv == nil || fv.Config() == nil {
 		return fmt.Errorf("%s returned no flag value / config", ctor)
+	}
+	if err := checkHanded("after Parse"); err != nil {
+		return err
 	}
 	if initFlag != nil && fv.Config() != initFlag {
 		return fmt.Errorf("%s: Config() is not the initial config the files are documented to be merged into", ctor)
